@@ -82,6 +82,7 @@ type RunHarness struct {
 	nev     int
 	lastW   map[string]time.Time
 	rfault  map[string]int
+	rskip   map[string]int
 	wfault  map[string]int
 }
 
@@ -200,12 +201,18 @@ func NewRunHarness(rec *Recorder, cfg RunCfg) *RunHarness {
 
 // ReadFault makes the next n reads of a register fail (garbage=false) or return garbage, which for
 // an integer file means a parse error (garbage=true); both surface as a read error.
-func (h *RunHarness) ReadFault(name string, n int) {
+func (h *RunHarness) ReadFault(name string, n int) { h.ReadFaultSkip(name, n, 0) }
+
+// ReadFaultSkip: the next `skip` reads of the register succeed, the `n` reads after them fail
+// (e.g. skip=1: the feature probe succeeds, the read that follows fails).
+func (h *RunHarness) ReadFaultSkip(name string, n, skip int) {
 	h.mu.Lock()
 	if h.rfault == nil {
 		h.rfault = map[string]int{}
+		h.rskip = map[string]int{}
 	}
 	h.rfault[name] = n
+	h.rskip[name] = skip
 	h.mu.Unlock()
 }
 
@@ -222,7 +229,10 @@ func (h *RunHarness) WriteFault(name string, n int) {
 func (h *RunHarness) onRead(e *Env, name string) (int, error, bool) {
 	h.mu.Lock()
 	n := h.rfault[name]
-	if n > 0 {
+	if n > 0 && h.rskip[name] > 0 {
+		h.rskip[name]--
+		n = 0
+	} else if n > 0 {
 		h.rfault[name] = n - 1
 	}
 	h.mu.Unlock()
@@ -304,7 +314,7 @@ func (h *RunHarness) onTrace(fanId string, event string, args ...int) {
 	if args == nil {
 		args = []int{}
 	}
-	ev := Ev{"ev": event, "fan": fanId, "a": args}
+	ev := Ev{"ev": event, "fan": fanId, "a": args, "vt": h.vt()}
 	if st != nil && event == "RpmEnd" && st.rf.Spec.HasRpm {
 		if _, ok := h.Env.paths[st.px+"rpm"]; ok {
 			ev["rpm"] = h.Env.Get(st.px + "rpm") // what the plant reports right now (the reading the monitor just took)
@@ -342,7 +352,7 @@ func (h *RunHarness) fanInfo() []Ev {
 			"cfgMap": sp.CfgMap != nil, "cfgMinMax": sp.CfgMin != nil && sp.CfgMax != nil, "neverStop": sp.NeverStop,
 			"pwm": h.Env.Get(st.px + "pwm"), "mode": h.modeOf(st), "theta": st.rf.Theta,
 			"rest": st.rf.Rest[:], "hadData": h.hasData(st), "hadMap": h.hasMap(st), "n": h.Cfg.Window,
-			"min": st.fan.GetMinPwm(), "max": st.fan.GetMaxPwm(), "stallOnly": st.rf.CurveErrAt < 0})
+			"min": st.fan.GetMinPwm(), "max": st.fan.GetMaxPwm(), "stallOnly": st.rf.CurveErrAt < 0, "rpmPollMs": h.Cfg.RpmPollMs})
 	}
 	return out
 }
